@@ -75,6 +75,7 @@ def _mk_fail(check, env, g, vec, what, **kw):
         d["walk"] = vec["walk"]
         if "outL" in vec:
             d["outL"] = _hex(vec["outL"])
+    d["inner_defs"] = env.defs[:ninner]
     d["features"] = shadows.features(env, len(env.defs), g.get("lay"))
     d.update(kw)
     return d
